@@ -176,6 +176,7 @@ class ReorgDriver(IndexDriver):
         w.faults.script = []
         w.sim.stall_p = 0.0
         w.sim.line_stall_p = 0.0
+        w.sim.queue_p = 0.0
         w.sim.stall_boost = None
         end = w.sim.now + limit
         if self.pending_bg:
